@@ -144,6 +144,9 @@ namespace cs
                 case 4:
                     p.add("dropj", {(long long)r.below(100), (long long)r.below(2)});
                     break;
+                case 6:
+                    p.add("jvm", {(long long)r.below(100), (long long)r.below(2)});
+                    break;
                 case 5:
                     p.add("jv", {(long long)r.below(12), (long long)r.below(40),
                                  r.pick<long long>({-40, -1, 0, 0, 16, 17, 64, 200}),
@@ -154,7 +157,7 @@ namespace cs
                                   (long long)r.below(9), (long long)r.below(5),
                                   r.chance(1, 3) ? -(long long)r.range(1, 2000) : r.pick<long long>({0, 0, 0, 1, 12, 100}),
                                   (profile == "C20J" || r.chance(1, 4)) ? (long long)r.below(30) : 0,
-                                  (long long)r.below(2)});
+                                  (long long)r.below(2), r.chance(1, 5) ? 1 : 0});
                 }
             }
         }
